@@ -98,3 +98,11 @@ Theorem C02_checked_propagate_sound : forall db level asserts units st st' r,
   grows db (ps_trail st) (ps_trail st') /\
   (forall o id, r = Some (o, id) -> exists c, nth_error db (N.to_nat id) = Some c /\ falsified (ps_trail st') (cl_lits c) = true).
 Proof. exact checked_propagate_sound. Qed.
+
+(* in every state of the solver model (Cdcl/Solver.v) the non-learnt, non-root clauses are facts:
+   the whole solver never holds an encoder clause that a valid selection violates *)
+From Resolvo Require Import Cdcl.SolverProofs.
+Theorem C02_solver_model_holds_only_facts : forall U P A (st : sstate A),
+  SInv U P A st -> forall c, In c (s_db st) -> enc_kind c = true ->
+  factb U P (trk_idx (e_trk (s_enc st))) c = true.
+Proof. exact sinv_facts. Qed.
